@@ -632,7 +632,7 @@ def finding_still_there(html, finding_id):
 class C17(PropCheck):
     id = 'C17'
     extractors = (stack_kinds.generate,)
-    modules = ('WpModel.Props.C17Utf16', 'WpModel.Props.C17', 'WpModel.Props.C17Paint', 'WpModel.Props.C17Text', 'WpModel.Props.C17Doc',
+    modules = ('WpModel.Props.C17Utf16', 'WpModel.Props.C17ReadBack', 'WpModel.Props.C17', 'WpModel.Props.C17Paint', 'WpModel.Props.C17Text', 'WpModel.Props.C17Doc',
                'WpModel.Props.C17Parts', 'WpModel.Props.C17Clip',
                'WpModel.Witness.C17')
     trusted_base = (
@@ -1171,7 +1171,8 @@ MANIFEST = {
             'painted by point 2 or 6 (false for grid containers and table rows: known finding with Lean witnesses); '
             'inner radius = max(0, outer - inset) per corner and axis, corner-overlap scaling makes adjacent radii '
             'fit; transform-origin is a fixed point, determinant multiplicative; glyphs map back to the text when the '
-            'glyph-to-text relation is functional; every box class but InlineBox gets its transform as a matrix '
+            'glyph-to-text relation is functional, and read as UTF-16 the decoded units are the text, character by '
+            'character in every plane; every box class but InlineBox gets its transform as a matrix '
             '(regenerated table), singular iff the product of the function determinants vanishes; '
             'layout_backgrounds moves exactly one Background to the canvas (root element, else its body child) and '
             'leaves every other one in place, so the propagated background is not painted at its own box; '
